@@ -10,6 +10,7 @@ macro_rules! harnesses {
             #[cfg(kani)]
             #[kani::proof]
             #[kani::unwind($unwind)]
+            #[kani::stub(std::vec::Vec::push, crate::verif::common::push_no_grow)]
             fn $name() { $body; kani::cover!(true, "END harness end reachable"); }
         )*
         #[cfg(not(kani))]
@@ -31,7 +32,16 @@ pub struct SymCfg {
 /// Every configuration the properties quantify over: default / path bonuses x ignore_case x
 /// normalize x prefer_prefix (prefer_prefix fixed by the caller where the statement fixes it).
 pub fn sym_config(prefer_prefix: Option<bool>) -> SymCfg {
-    let path = sym::bool_();
+    sym_config_p(None, prefer_prefix)
+}
+
+/// `path`: Some(b) fixes the bonus profile per harness instance (keeps the delimiter table a
+/// constant for the solver); None leaves it symbolic.
+pub fn sym_config_p(path: Option<bool>, prefer_prefix: Option<bool>) -> SymCfg {
+    let path = match path {
+        Some(b) => b,
+        None => sym::bool_(),
+    };
     let mut cfg = if path {
         Config::DEFAULT.match_paths()
     } else {
@@ -137,4 +147,20 @@ pub fn sym_indices<const P: usize>(extra: usize) -> (Vec<u32>, [u32; P]) {
         i += 1;
     }
     (v, pre)
+}
+
+
+/// Stub for `Vec::push` (environment, `-Z stubbing`): the harnesses hand the code a vector with
+/// enough spare capacity, so growth is never needed; exploring `RawVec` growth with a symbolic
+/// length is what makes CBMC explode (realloc of a symbolic size). The stub *asserts* that no
+/// growth is needed - if the code pushed more than the harness reserved the run fails, it is not
+/// silently truncated.
+#[cfg(kani)]
+pub fn push_no_grow<T, A: std::alloc::Allocator>(v: &mut Vec<T, A>, value: T) {
+    let len = v.len();
+    assert!(len < v.capacity(), "ENGINE Vec::push stub: growth not expected (harness reserved too little)");
+    unsafe {
+        std::ptr::write(v.as_mut_ptr().add(len), value);
+        v.set_len(len + 1);
+    }
 }
